@@ -9,12 +9,14 @@
 From DoitV Require Export Base.
 Open Scope N_scope.
 
-Inductive status := SNone | SRun | SUpToDate | SIgnore | SSuccess | SFailure.
+(* SFailureV: run_status 'failure' of a task whose actions all succeeded (task.values is set) but
+   whose save_success failed -- Python has one status string, the difference is only in task.values *)
+Inductive status := SNone | SRun | SUpToDate | SIgnore | SSuccess | SFailure | SFailureV.
 Definition unfinished (s : status) : bool := match s with SNone | SRun => true | _ => false end.
 Definition status_eqb (a b : status) : bool :=
   match a, b with
   | SNone, SNone | SRun, SRun | SUpToDate, SUpToDate | SIgnore, SIgnore
-  | SSuccess, SSuccess | SFailure, SFailure => true
+  | SSuccess, SSuccess | SFailure, SFailure | SFailureV, SFailureV => true
   | _, _ => false end.
 
 Inductive check := CkRun | CkUpToDate | CkError.          (* Dependency.get_status(...).status *)
@@ -147,17 +149,18 @@ Definition gen_node (d : dstate) (parent_anc : option (list name)) (k : name) : 
 (* ExecNode.parent_status (324-328) *)
 Definition parent_status (nd : node) (dep : name) (dst : status) : node :=
   match dst with
-  | SFailure => nd_bad nd (n_bad nd ++ [dep]) (n_ign nd)
+  | SFailure | SFailureV => nd_bad nd (n_bad nd ++ [dep]) (n_ign nd)
   | SIgnore => nd_bad nd (n_bad nd) (n_ign nd ++ [dep])
   | _ => nd end.
 
 (* TaskDispatcher._process_calc_dep_results (590-604): the calc task's saved values are merged
-   into the waiting task.  task.values is only set for a task that was executed successfully or
-   found up-to-date (runner.py 150, task.execute); otherwise it is {} and nothing is added.
+   into the waiting task.  task.values is set for a task found up-to-date (runner.py 150) or whose
+   actions all succeeded (task.execute) -- also when save_success failed afterwards (SFailureV);
+   otherwise it is {} and nothing is added.
    explicit task_dep are appended without de-duplication (_expand_task_dep), implicit ones
    (add_implicit_task_dep) only if not yet present, calc_dep is a set. *)
 Definition calc_values_visible (st : status) : bool :=
-  match st with SSuccess | SUpToDate => true | _ => false end.
+  match st with SSuccess | SUpToDate | SFailureV => true | _ => false end.
 Definition add_if_new (acc : list name) (x : name) : list name := if mem x acc then acc else acc ++ [x].
 Definition process_calc (nd : node) (c : name) (cst : status) : node :=
   if calc_values_visible cst then
